@@ -4,8 +4,11 @@
 (*                                                                             *)
 (* Events carry a global sequence number drawn while the lock protecting the   *)
 (* described state was held (PathSetSharedState::sync for fetch_start,         *)
-(* fetch_done, exit_notify, worker_exit, caller_check; the map guard for       *)
-(* map_insert, map_load, map_remove).  Steps of the I-spec that are lock-free  *)
+(* fetch_done, exit_notify, worker_exit, caller_check; the bucket lock of the  *)
+(* map for map_insert, map_load).  A removal from the map (remove_sync does    *)
+(* not expose its lock) is bracketed: map_remove_begin, [map_remove if an      *)
+(* entry was removed], map_remove_end; it took effect at some instant in       *)
+(* between (hidden HStop / HExitRemove).  Steps of the I-spec that are lock-free *)
 (* in the code have no event of their own; their instant is only known to lie  *)
 (* between two events of the same task:                                        *)
 (*   - the caller's lock-free reads (Start = peek_with/try_active_path,         *)
@@ -14,8 +17,9 @@
 (*     outcome would be different later in the window -- this explores every    *)
 (*     instant of the window without keeping a "not yet read" copy of the state *)
 (*   - FetchReturn (the fetcher's answer is published between the harness's     *)
-(*     fetch_ret stamp and fetch_done), a removal that finds nothing (between   *)
-(*     exiting and exit_notify), the final active_path.store(None) (between     *)
+(*     fetch_ret stamp and fetch_done), the effect of a removal (inside its     *)
+(*     bracket), a failed upgrade of the exiting worker's Weak (between exiting *)
+(*     and exit_notify), the final active_path.store(None) (between             *)
 (*     exit_notify and worker_exit), the release of the director's clone        *)
 (*     (between drop_begin and drop), the drop of an aborted future: HIDDEN     *)
 (*     steps placed by TLC                                                      *)
@@ -45,14 +49,17 @@ VARIABLES l,           \* next line of the trace
           fresh,       \* per caller: which lock-free read produced its current pc since its last event
           pend,        \* per worker: outcome announced by fetch_ret, not yet published ("" = none)
           dropArmed,   \* the director started to drop its clone
-          cancelArmed  \* callers whose task was aborted (future dropped at an unknown instant)
+          cancelArmed, \* callers whose task was aborted (future dropped at an unknown instant)
+          rem          \* removals in progress, by remover (0 = the user, w = exiting worker w):
+                       \* [st |-> "" | "armed" | "removed" | "noop" | "reported", k |-> pair]
 
-aux == <<fresh, pend, dropArmed, cancelArmed>>
+aux == <<fresh, pend, dropArmed, cancelArmed, rem>>
+Rem0 == [b \in 0..NW |-> [st |-> "", k |-> 0]]
 tvars == <<vars, l, aux>>
 
 TInit == /\ Init /\ l = 2
          /\ fresh = [c \in Callers |-> ""] /\ pend = [w \in Workers |-> ""]
-         /\ dropArmed = FALSE /\ cancelArmed = {}
+         /\ dropArmed = FALSE /\ cancelArmed = {} /\ rem = Rem0
 
 E == Rec[l]
 IsCaller(c) == c \in Callers
@@ -88,14 +95,14 @@ TReset ==
   /\ linger' = {}
   /\ runC' = "none" /\ runW' = None
   /\ fresh' = [c \in Callers |-> ""] /\ pend' = [w \in Workers |-> ""]
-  /\ dropArmed' = FALSE /\ cancelArmed' = {}
+  /\ dropArmed' = FALSE /\ cancelArmed' = {} /\ rem' = Rem0
 
 \* the task of an API caller was spawned with its own clone: Start (+ Contains) evaluated now
 TCallerStart ==
   /\ E.ev = "caller_start" /\ IsCaller(E.c) /\ Api(E.c)
   /\ cpc[E.c] = "idle" /\ userHeld
   /\ SetC(E.c, StartAll(E.c)) /\ Fresh(E.c, "start")
-  /\ UNCHANGED <<mvars, wvars, h, notified, running, pend, dropArmed, cancelArmed>>
+  /\ UNCHANGED <<mvars, wvars, h, notified, running, pend, dropArmed, cancelArmed, rem>>
 
 \* a task awaiting PathSetHandle::active_path of worker w was spawned: ActiveLoad evaluated now
 THandleGet ==
@@ -103,7 +110,7 @@ THandleGet ==
   /\ cpc[E.c] = "idle" /\ Kind[E.c] = "handle" /\ wpc[E.w] # "unborn"
   /\ h' = [h EXCEPT ![E.c] = E.w]
   /\ SetC(E.c, LoadOutcome(E.w)) /\ Fresh(E.c, "load")
-  /\ UNCHANGED <<mvars, wvars, notified, running, pend, dropArmed, cancelArmed>>
+  /\ UNCHANGED <<mvars, wvars, notified, running, pend, dropArmed, cancelArmed, rem>>
 
 \* after Ensure: cached_path returns None; path() goes on to handle.active_path()
 AfterEnsureT(c, w, act) ==
@@ -119,22 +126,33 @@ TMapInsert ==
   /\ h' = [h EXCEPT ![E.c] = E.w]
   /\ AfterEnsureT(E.c, E.w, FALSE)
   /\ UNCHANGED <<limbo, removed, cancelled, userHeld, init, ongoing, err, active, used, fetches, notified, running,
-                 pend, dropArmed, cancelArmed>>
+                 pend, dropArmed, cancelArmed, rem>>
 
 TMapLoad ==
   /\ E.ev = "map_load" /\ IsCaller(E.c) /\ E.w \in Workers
   /\ cpc[E.c] = "ensure" /\ KeyOf[E.c] = E.k /\ managed[E.k] = E.w
   /\ h' = [h EXCEPT ![E.c] = E.w]
   /\ AfterEnsureT(E.c, E.w, active[E.w])
-  /\ UNCHANGED <<mvars, wvars, notified, running, pend, dropArmed, cancelArmed>>
+  /\ UNCHANGED <<mvars, wvars, notified, running, pend, dropArmed, cancelArmed, rem>>
 
-TMapRemove ==
-  /\ E.ev = "map_remove"
-  /\ IF E.by = 0
-     THEN Stop(E.k)
-     ELSE /\ E.by \in Workers /\ Alive /\ wkey[E.by] = E.k /\ managed[E.k] # None
-          /\ ExitRemove(E.by)
-  /\ UNCHANGED aux
+\* stop_managing_paths is about to access the map; an exiting worker has upgraded its Weak
+TRemoveBegin ==
+  /\ E.ev = "map_remove_begin" /\ E.by \in 0..NW /\ rem[E.by].st = ""
+  /\ rem' = [rem EXCEPT ![E.by] = [st |-> "armed", k |-> E.k]]
+  /\ IF E.by = 0 THEN userHeld /\ UNCHANGED vars
+     ELSE wkey[E.by] = E.k /\ ExitUpgrade(E.by) /\ wpc'[E.by] = "removing"
+  /\ UNCHANGED <<fresh, pend, dropArmed, cancelArmed>>
+
+\* reported after the fact: an entry was removed
+TRemoved ==
+  /\ E.ev = "map_remove" /\ E.by \in 0..NW /\ rem[E.by].st = "removed"
+  /\ rem' = [rem EXCEPT ![E.by].st = "reported"]
+  /\ UNCHANGED <<vars, fresh, pend, dropArmed, cancelArmed>>
+
+TRemoveEnd ==
+  /\ E.ev = "map_remove_end" /\ E.by \in 0..NW /\ rem[E.by].st \in {"noop", "reported"}
+  /\ rem' = [rem EXCEPT ![E.by] = [st |-> "", k |-> 0]]
+  /\ UNCHANGED <<vars, fresh, pend, dropArmed, cancelArmed>>
 
 TFetchStart ==
   /\ E.ev = "fetch_start" /\ E.w \in Workers
@@ -147,7 +165,7 @@ TFetchRet ==
   /\ E.ev = "fetch_ret" /\ E.w \in Workers
   /\ wpc[E.w] = "fetching" /\ pend[E.w] = ""
   /\ pend' = [pend EXCEPT ![E.w] = E.note]
-  /\ UNCHANGED <<vars, fresh, dropArmed, cancelArmed>>
+  /\ UNCHANGED <<vars, fresh, dropArmed, cancelArmed, rem>>
 
 TFetchDone ==
   /\ E.ev = "fetch_done" /\ E.w \in Workers
@@ -183,28 +201,28 @@ TCallerCheck ==
      THEN SetC(E.c, FinalOutcome(E.w)) /\ Fresh(E.c, "final") /\ UNCHANGED notified
      ELSE /\ SetC(E.c, <<"waiting", "">>) /\ Fresh(E.c, "")
           /\ notified' = [notified EXCEPT ![E.c] = FALSE]
-  /\ UNCHANGED <<mvars, wvars, h, running, pend, dropArmed, cancelArmed>>
+  /\ UNCHANGED <<mvars, wvars, h, running, pend, dropArmed, cancelArmed, rem>>
 
 TCallerWoken ==
   /\ E.ev = "caller_woken" /\ IsCaller(E.c)
   /\ cpc[E.c] = "waiting" /\ notified[E.c]
   /\ SetC(E.c, FinalOutcome(h[E.c])) /\ Fresh(E.c, "final")
-  /\ UNCHANGED <<mvars, wvars, h, notified, running, pend, dropArmed, cancelArmed>>
+  /\ UNCHANGED <<mvars, wvars, h, notified, running, pend, dropArmed, cancelArmed, rem>>
 
 \* the call returned (stamped after the caller's clone was released)
 TCallerDone ==
   /\ E.ev = "caller_done" /\ IsCaller(E.c)
   /\ cpc[E.c] = "done" /\ res[E.c] = E.note
   /\ linger' = linger \ {E.c} /\ Fresh(E.c, "")
-  /\ UNCHANGED <<mvars, wvars, cpc, h, notified, res, running, pend, dropArmed, cancelArmed>>
+  /\ UNCHANGED <<mvars, wvars, cpc, h, notified, res, running, pend, dropArmed, cancelArmed, rem>>
 
-TDropBegin == E.ev = "drop_begin" /\ userHeld /\ dropArmed' = TRUE /\ UNCHANGED <<vars, fresh, pend, cancelArmed>>
+TDropBegin == E.ev = "drop_begin" /\ userHeld /\ dropArmed' = TRUE /\ UNCHANGED <<vars, fresh, pend, cancelArmed, rem>>
 TDropEnd == E.ev = "drop" /\ ~userHeld /\ UNCHANGED <<vars, aux>>
 
 TCancelBegin ==
   /\ E.ev = "caller_cancel" /\ IsCaller(E.c)
   /\ cancelArmed' = cancelArmed \cup {E.c}
-  /\ UNCHANGED <<vars, fresh, pend, dropArmed>>
+  /\ UNCHANGED <<vars, fresh, pend, dropArmed, rem>>
 
 \* harness-side bookkeeping events without a counterpart in the spec
 TSkip == E.ev \in {"fetch_call", "stop_call", "note"} /\ UNCHANGED <<vars, aux>>
@@ -212,7 +230,8 @@ TSkip == E.ev \in {"fetch_call", "stop_call", "note"} /\ UNCHANGED <<vars, aux>>
 TEvent ==
   /\ l <= Len(Rec)
   /\ l' = l + 1
-  /\ \/ TReset \/ TCallerStart \/ THandleGet \/ TMapInsert \/ TMapLoad \/ TMapRemove
+  /\ \/ TReset \/ TCallerStart \/ THandleGet \/ TMapInsert \/ TMapLoad
+     \/ TRemoveBegin \/ TRemoved \/ TRemoveEnd
      \/ TFetchStart \/ TFetchRet \/ TFetchDone \/ TExiting \/ TExitNotify \/ TWorkerExit
      \/ TCallerCheck \/ TCallerWoken \/ TCallerDone \/ TDropBegin \/ TDropEnd
      \/ TCancelBegin \/ TSkip
@@ -243,17 +262,32 @@ HCancel(c) ==
 HRelease(c) ==
   /\ c \in linger /\ cpc[c] = "done"
   /\ linger' = linger \ {c} /\ Fresh(c, "")
-  /\ UNCHANGED <<mvars, wvars, cpc, h, notified, res, running, pend, dropArmed, cancelArmed>>
+  /\ UNCHANGED <<mvars, wvars, cpc, h, notified, res, running, pend, dropArmed, cancelArmed, rem>>
 
 HFetchReturn(w) ==
   /\ pend[w] # ""
   /\ FetchReturn(w, pend[w])
   /\ pend' = [pend EXCEPT ![w] = ""]
-  /\ UNCHANGED <<fresh, dropArmed, cancelArmed>>
+  /\ UNCHANGED <<fresh, dropArmed, cancelArmed, rem>>
 
-HExitRemoveNoop(w) ==
-  /\ wpc[w] = "exiting" /\ (~Alive \/ managed[wkey[w]] = None)
+\* the removal takes effect (or finds nothing) inside its bracket
+HStop ==
+  /\ rem[0].st = "armed"
+  /\ IF managed[rem[0].k] # None
+     THEN Stop(rem[0].k) /\ rem' = [rem EXCEPT ![0].st = "removed"]
+     ELSE UNCHANGED vars /\ rem' = [rem EXCEPT ![0].st = "noop"]
+  /\ UNCHANGED <<fresh, pend, dropArmed, cancelArmed>>
+
+HExitRemove(w) ==
+  /\ rem[w].st = "armed" /\ wpc[w] = "removing"
   /\ ExitRemove(w)
+  /\ rem' = [rem EXCEPT ![w].st = IF managed[wkey[w]] # None THEN "removed" ELSE "noop"]
+  /\ UNCHANGED <<fresh, pend, dropArmed, cancelArmed>>
+
+\* the manager was gone when the exiting worker tried to upgrade its Weak: no removal
+HExitSkip(w) ==
+  /\ wpc[w] = "exiting" /\ ~Alive
+  /\ ExitUpgrade(w)
   /\ UNCHANGED aux
 
 \* active_path.store(None) precedes the worker_exit stamp
@@ -268,8 +302,8 @@ THidden ==
   /\ l <= Len(Rec) /\ Rec[l].ev # "reset"
   /\ UNCHANGED l
   /\ \/ \E c \in Callers : ReRead(c) \/ HCancel(c) \/ HRelease(c)
-     \/ \E w \in Workers : HFetchReturn(w) \/ HExitRemoveNoop(w) \/ HClear(w)
-     \/ HDrop
+     \/ \E w \in Workers : HFetchReturn(w) \/ HExitRemove(w) \/ HExitSkip(w) \/ HClear(w)
+     \/ HStop \/ HDrop
 
 TNext == TEvent \/ THidden
 TSpec == TInit /\ [][TNext]_tvars
